@@ -121,10 +121,12 @@ type Machine struct {
 	// goroutine is chosen among all runnable ones (no budget cost).
 	preemptMode bool
 	preemptLeft int
+	nextChoice  bool // also fork over which runnable goroutine continues at blocking points / goroutine ends (Params["nextchoice"] = 1); otherwise FIFO
 	// concrete replay (no solver): inputs and choices come from a counterexample
 	conc *concreteRun
 	// happens-before race detection (Params["race"] = 1)
 	race *raceState
+	racePaused bool // vrtRaceOff: the harness's own end-of-run oracle reads shared state at quiescence
 	raceForkExtra vclock // joined into the next spawned goroutine's clock (timer callbacks)
 
 	// goroutines
@@ -638,7 +640,7 @@ func (m *Machine) schedule(exiting bool) {
 			}
 			if g.ready == nil || g.ready() {
 				cands = append(cands, g)
-				if !m.preemptMode {
+				if !m.preemptMode || !m.nextChoice {
 					break
 				}
 			}
